@@ -190,7 +190,8 @@ func (s *c6Scene) tokens() string {
 	}
 	w(" lights %d", len(s.lights))
 	for _, l := range s.lights {
-		w(" %s", Fs(l...))
+		w(" %s %016x %016x %016x %016x %016x %016x %s %016x %s", Fs(l[:3]...), int(l[3]), int(l[4]), int(l[5]), int(l[6]), int(l[7]),
+			int(l[8]), F(l[9]), int(l[10]), F(l[11]))
 	}
 	return b.String()
 }
@@ -331,7 +332,20 @@ func (s *c6Scene) build() gltf.PolyformScene {
 		out.Models = append(out.Models, pm)
 	}
 	for _, l := range s.lights {
-		out.Lights = append(out.Lights, gltf.KHR_LightsPunctual{Position: vector3.New(l[0], l[1], l[2])})
+		kl := gltf.KHR_LightsPunctual{Position: vector3.New(l[0], l[1], l[2])}
+		kl.Type = []gltf.KHR_LightsPunctualType{"", gltf.KHR_LightsPunctualType_Point, gltf.KHR_LightsPunctualType_Directional, gltf.KHR_LightsPunctualType_Spot}[int(l[3])]
+		if l[4] != 0 {
+			kl.Color = c6Color{uint32(l[5]), uint32(l[6]), uint32(l[7]), 0xffff}
+		}
+		if l[8] != 0 {
+			v := l[9]
+			kl.Intensity = &v
+		}
+		if l[10] != 0 {
+			v := l[11]
+			kl.Range = &v
+		}
+		out.Lights = append(out.Lights, kl)
 	}
 	return out
 }
@@ -808,15 +822,40 @@ func (d *r6Doc) tokens() (string, []string) {
 	for _, s := range d.Samplers {
 		w(" %d %d %d %d %s", s.MagFilter, s.MinFilter, s.WrapS, s.WrapT, q(s.Name))
 	}
-	nl := 0
+	var lightToks []string
 	for k, raw := range d.Extensions {
 		seen[k] = true
 		if k == "KHR_lights_punctual" {
 			var o struct {
-				Lights []json.RawMessage `json:"lights"`
+				Lights []struct {
+					Type      string    `json:"type"`
+					Color     []float64 `json:"color"`
+					Intensity *float64  `json:"intensity"`
+					Range     *float64  `json:"range"`
+				} `json:"lights"`
 			}
-			if json.Unmarshal(raw, &o) == nil {
-				nl = len(o.Lights)
+			if json.Unmarshal(raw, &o) != nil {
+				w(" x")
+				continue
+			}
+			for _, l := range o.Lights {
+				ty := map[string]int{"point": 1, "directional": 2, "spot": 3}[l.Type]
+				t := fmt.Sprintf("%016x", ty)
+				if len(l.Color) == 3 {
+					t += fmt.Sprintf(" %016x %s", 1, Fs(l.Color...))
+				} else if l.Color == nil {
+					t += fmt.Sprintf(" %016x %016x %016x %016x", 0, 0, 0, 0)
+				} else {
+					t += " x"
+				}
+				for _, p := range []*float64{l.Intensity, l.Range} {
+					if p == nil {
+						t += fmt.Sprintf(" %016x %016x", 0, 0)
+					} else {
+						t += fmt.Sprintf(" %016x %s", 1, F(*p))
+					}
+				}
+				lightToks = append(lightToks, t)
 			}
 		} else {
 			w(" x")
@@ -825,7 +864,10 @@ func (d *r6Doc) tokens() (string, []string) {
 	if len(d.Skins) > 0 || len(d.Animations) > 0 {
 		w(" x")
 	}
-	w(" lights %d", nl)
+	w(" lights %d", len(lightToks))
+	for _, t := range lightToks {
+		w(" %s", t)
+	}
 	used := append([]string{}, d.ExtensionsUsed...)
 	sort.Strings(used)
 	w(" extUsed %d", len(used))
@@ -1036,9 +1078,9 @@ func (c *Ctx) c6Tex() c6Tex {
 			t.sampler.Name = "smp"
 		}
 	}
-	if c.Rng.Intn(4) == 0 {
+	if c.Rng.Intn(3) == 0 {
 		t.xf = c.c6Xf()
-		t.req = c.Rng.Intn(3) == 0
+		t.req = c.Rng.Intn(2) == 0
 	}
 	return t
 }
@@ -1317,10 +1359,22 @@ func (c *Ctx) c6Scene(level int, big int) *c6Scene {
 		}
 		s.models = append(s.models, md)
 	}
-	if level >= 1 && (c.Rng.Intn(5) == 0 || noPayload && c.Rng.Intn(2) == 0) {
+	if level >= 1 && (c.Rng.Intn(3) == 0 || noPayload && c.Rng.Intn(2) == 0) {
 		nl := 1 + c.Rng.Intn(2)
 		for k := 0; k < nl; k++ {
-			s.lights = append(s.lights, c.c6Vec(3))
+			l := append(c.c6Vec(3), make([]float64, 9)...)
+			l[3] = float64(c.Rng.Intn(4))
+			if c.Rng.Intn(2) == 0 {
+				v := []float64{0, 0x3333, 0x8080, 0xffff, 12345}
+				l[4], l[5], l[6], l[7] = 1, v[c.Rng.Intn(5)], v[c.Rng.Intn(5)], v[c.Rng.Intn(5)]
+			}
+			if c.Rng.Intn(2) == 0 {
+				l[8], l[9] = 1, float64(1+c.Rng.Intn(40))/4
+			}
+			if c.Rng.Intn(2) == 0 {
+				l[10], l[11] = 1, float64(1+c.Rng.Intn(100))
+			}
+			s.lights = append(s.lights, l)
 		}
 		c.Note("scene.lights")
 	}
@@ -1471,13 +1525,13 @@ func runC06(c *Ctx) {
 	c.c6Case(empty, true, "")
 	c.c6Case(empty, false, "")
 	// scenes without any binary payload: lights only, only empty meshes, both (GLB has no BIN chunk)
-	lightsOnly := &c6Scene{lights: [][]float64{{1, 2, 3}, {0, -1, 0.5}}}
+	lightsOnly := &c6Scene{lights: [][]float64{{1, 2, 3, 0, 0, 0, 0, 0, 0, 0, 0, 0}, {0, -1, 0.5, 3, 1, 0xffff, 0x8080, 0, 1, 2.5, 1, 10}}}
 	c.c6Case(lightsOnly, true, "")
 	c.c6Case(lightsOnly, false, "")
 	emptyMesh := &c6Scene{meshes: []c6Mesh{{topo: 0}, {topo: 1, attrs: []c6Attr{{name: "Position", dim: 3, data: []float64{0, 0, 0}}}}},
 		models: []c6Model{{name: "e", mesh: 0, mat: -1}, {name: "p", mesh: 1, mat: -1, t: []float64{1, 0, 0}}}}
 	c.c6Case(emptyMesh, true, "")
-	emptyMesh.lights = [][]float64{{4, 5, 6}}
+	emptyMesh.lights = [][]float64{{4, 5, 6, 2, 0, 0, 0, 0, 1, 0.75, 0, 0}}
 	c.c6Case(emptyMesh, true, "")
 	c.Note("nobin.fixed")
 	// one mesh pointer shared by a model without material and models with the scene's first / second material
